@@ -107,7 +107,7 @@ def handlers : List (String × Handler) := [
           (← getInt j "rows") (← getInt j "cols") (← getBool j "as_indices") false with
       | .error e => .error e
       | .ok (r0, r1, c0, c1) =>
-        match ((lut.filter (selected r0 r1 c0 c1 th tw)).mergeSort lutLe).mapM (instrOf r0 r1 c0 c1 th tw) with
+        match regionInstrs lut r0 r1 c0 c1 th tw with
         | .error e => .error e
         | .ok l => .ok (l, r1 - r0, c1 - c0)
     pure (exceptToJson (fun (v : List Instr × Int × Int) => Json.mkObj [
